@@ -1656,7 +1656,13 @@ def check_reassembly(args):
             q.unpack(p.pack())
             p = q
         frags.append(p)
+    before = [(f.fragment_offset, f.flags, bytes(f.payload)) for f in frags]
     got = se.combine_ip_fragments([frags[i] for i in perm])
+    if args.get("twice"):
+        # the same fragment objects reassembled again (another arrival order): the function may not have changed them
+        if [(f.fragment_offset, f.flags, bytes(f.payload)) for f in frags] != before:
+            return "combine_ip_fragments changed the fragments it was given (%d fragments, cuts %r)" % (len(cuts), cuts)
+        got = se.combine_ip_fragments([frags[i] for i in reversed(perm)])
     if got.payload != x:
         return "reassembly of %d fragments (cuts %r) in order %r returns a %d-byte payload that is not the original %d bytes" % (
             len(cuts), cuts, perm, len(got.payload), len(x))
@@ -1724,6 +1730,22 @@ def oracles_C16(ctx, hints):
         w = check_reassembly(args)
         if w:
             fails.append(Failure("reassembly", args, w, {"class": "combine_ip_fragments", "check": "order"}))
+            bad = True
+    # real datagram sizes: MTU-sized fragments of datagrams up to the IPv4 maximum (fragment offsets beyond 8191 bytes,
+    # i.e. beyond what 13 bits hold when the byte offset is mistaken for the field value; 65515 = 65535 - 20)
+    for total in (1481, 8184, 8192, 8200, 9000, 20000, 65507, 65515) + tuple(rng.randrange(8192, 65515) for _ in range(ctx.scale(2, 40))):
+        if bad:
+            break
+        cuts = list(range(0, total, 1480))
+        perm = list(range(len(cuts)))
+        rng.shuffle(perm)
+        hdr = {"srcip": addr(rng)[1:], "dstip": addr(rng)[1:], "protocol": 17, "dscp": 0, "id": rng.boundary(16), "ttl": 64}
+        args = {"x": rng._raw(total).hex(), "cuts": cuts, "perm": perm, "hdr": hdr, "vary": False, "via_bytes": total % 2 == 1,
+                "df": False, "twice": True}
+        n += 1
+        w = check_reassembly(args)
+        if w:
+            fails.append(Failure("reassembly", args, w, {"class": "combine_ip_fragments", "check": "order", "directed": "large_datagram"}))
             bad = True
     for _ in range(ctx.scale(40, 500)):
         cnt = rng.randrange(2, 6)
